@@ -640,7 +640,30 @@ def check_network(ctx, GeoGrid, GeoNetwork, lat, lon, A, directed, wtype,
     ok, _ = ctx.call(net.set_node_weight_type, other)
     if ok:
         weights(other, "set_node_weight_type")
-    ctx.call(net.set_node_weight_type, wtype)
+    ok, _ = ctx.call(net.set_node_weight_type, wtype)
+    if ok:
+        weights(wtype, "set_node_weight_type(back)")
+    # weights assigned by hand, then the geographic type requested again
+    net.node_weights = np.linspace(1.0, 2.0, n)
+    ok, _ = ctx.call(net.set_node_weight_type, wtype)
+    if ok:
+        weights(wtype, "custom-weights-then-same-type")
+    # the climate-network classes on the same grid (default type: surface),
+    # also after the network has been re-thresholded
+    if n >= 2 and not directed:
+        from pyunicorn.climate import ClimateNetwork
+        S = (A + A.T > 0) * 0.8 + np.eye(n)
+        okn, cn = ctx.call(ClimateNetwork, g, S, threshold=0.5,
+                           silence_level=3)
+        if okn:
+            net_, net = net, cn
+            weights("surface", "ClimateNetwork")
+            ctx.call(cn.set_threshold, 0.9)
+            weights("surface", "ClimateNetwork.set_threshold")
+            ctx.call(cn.set_link_density, 0.5)
+            weights("surface", "ClimateNetwork.set_link_density")
+            net = net_
+            ctx.count("climate_network_weights_checked")
     okc, clib = ctx.call(g.cos_lat)
     ctx.evals()
     if not okc or np.abs(np.asarray(clib, float) - cl).max() > WTOL:
